@@ -43,6 +43,10 @@ pub struct Test {
 #[derive(Clone, Debug, Serialize, Deserialize)]
 pub struct Case {
     pub tests: Vec<Test>,
+    /// the shell runs with job control (`sh -m`): subshells get process groups
+    /// and the shell takes the terminal back after every foreground one
+    #[serde(default)]
+    pub job_control: bool,
 }
 
 fn mutator(rng: &mut Rng, n: &mut u32) -> String {
@@ -149,9 +153,19 @@ pub fn generate(rng: &mut Rng, tier: Tier) -> Case {
     );
     let mut n = 0;
     let mut id = 0;
-    Case {
-        tests: (0..nt).map(|_| gen_test(rng, &mut n, &mut id, 0)).collect(),
+    let mut tests: Vec<Test> = (0..nt).map(|_| gen_test(rng, &mut n, &mut id, 0)).collect();
+    let job_control = rng.below(4) == 0;
+    if job_control {
+        // traps on the job-control signals: the shell blocks SIGTTOU itself
+        // while it takes the terminal back
+        for t in &mut tests {
+            if rng.bool() {
+                n += 1;
+                t.pre.push(format!("trap 'echo J{n}' {}", rng.pick(&["TTOU", "TTOU", "TSTP", "TTIN"])));
+            }
+        }
     }
+    Case { tests, job_control }
 }
 
 fn join(m: &[String]) -> String {
@@ -304,7 +318,7 @@ fn key_class(d: &str) -> &str {
 
 /// `tolerant`: a process was killed from outside (crash injection), so
 /// snapshots may be missing; every snapshot that exists is still checked.
-fn check_test(t: &Test, snaps: &BTreeMap<String, SnapMap>, tolerant: bool) -> Option<Viol> {
+fn check_test(t: &Test, snaps: &BTreeMap<String, SnapMap>, tolerant: bool, job_control: bool) -> Option<Viol> {
     let k = t.id;
     let get = |l: &str| snaps.get(&format!("{l}{k}"));
     let (Some(b), Some(c)) = (get("B"), get("C")) else {
@@ -378,6 +392,9 @@ fn check_test(t: &Test, snaps: &BTreeMap<String, SnapMap>, tolerant: bool) -> Op
                 return true;
             }
             match t.kind {
+                // (with job control an asynchronous list is an ordinary job:
+                // stdin untouched, SIGINT and SIGQUIT not ignored)
+                Kind::Async if job_control => false,
                 Kind::Async => {
                     // stdin is /dev/null, SIGINT and SIGQUIT are ignored
                     key == "fd:0"
@@ -406,7 +423,7 @@ fn check_test(t: &Test, snaps: &BTreeMap<String, SnapMap>, tolerant: bool) -> Op
                 ),
             ));
         }
-        if t.kind == Kind::Async {
+        if t.kind == Kind::Async && !job_control {
             for (sig, name) in [("disp:002", "SIGINT"), ("disp:003", "SIGQUIT")] {
                 if e.get(sig).map(String::as_str) != Some("Ignore") {
                     return Some((
@@ -477,7 +494,9 @@ fn check_run_opt(c: &Case, obs: &Observed, tolerant: bool) -> Option<Viol> {
         walk(t, &mut all);
     }
     for t in all {
-        if let Some(v) = check_test(t, &snaps, tolerant) {
+        // (a subshell of a job-control shell does not control jobs itself)
+        let jc = c.job_control && c.tests.iter().any(|top| top.id == t.id);
+        if let Some(v) = check_test(t, &snaps, tolerant, jc) {
             return Some(v);
         }
         // (only at the top level: what `trap` lists in a subshell of a subshell
@@ -535,6 +554,7 @@ fn spec_of(c: &Case) -> ScriptSpec {
     ScriptSpec {
         script: render(c),
         dash_c: true,
+        options: if c.job_control { vec!["-m".into()] } else { Vec::new() },
         files: vec![
             ("/work/e1".into(), b"e1-line1\ne1-line2\n".to_vec(), 0o644),
             ("/work/sub1/deep/keep".into(), b"".to_vec(), 0o644),
